@@ -2,14 +2,15 @@
    Only statements here; proofs in Proofs/NamesSplitProofs.v (conservation), NamesExactProofs.v (exactness),
    NamesIdemProofs.v (idempotence).
 
-   Proved: conservation for ALL strings; for ALL brace-balanced strings the exact separator rule (equality with the
-   independent word-level reference splitter), the protection corollary and idempotence under merge + split.
-   Tested, not proved: idempotence for unbalanced strings (C12_idempotent_all: the Python oracle checks it on the
-   implementation for every generated string on every run; the machine's treatment of a stray '}' right after a
-   separator has no word-level counterpart, see DESIGN 4 C12 Limits). *)
+   Proved: conservation and idempotence under merge + split for ALL strings; for ALL brace-balanced strings the exact
+   separator rule (equality with the independent word-level reference splitter) and the protection corollary.
+   Idempotence for all strings (C12_idempotent_all, Proofs/NamesIdemAllProofs.v) is a direct simulation argument on
+   the machine (no reference splitter): the machine's treatment of a stray '}' right after a separator has no
+   word-level counterpart, but after the canonical " and " it is processed from the same state as after the
+   original separator. *)
 From Coq Require Import List NArith ZArith Bool String.
 Local Open Scope string_scope.
-From BP Require Import Base.Chars Model.Blocks Gen.Constants Model.Names Spec.C12 Proofs.NamesSplitProofs Proofs.NamesExactProofs Proofs.NamesIdemProofs.
+From BP Require Import Base.Chars Model.Blocks Gen.Constants Model.Names Spec.C12 Proofs.NamesSplitProofs Proofs.NamesExactProofs Proofs.NamesIdemProofs Proofs.NamesIdemAllProofs.
 Import ListNotations.
 
 (* for EVERY string (balanced or not, any characters): the stripped text is exactly
@@ -38,6 +39,12 @@ Theorem C12_idempotent : forall s, balanced (strip4 s) = true -> idempotent_on s
 Proof. exact split_idempotent. Qed.
 Print Assumptions C12_idempotent.
 
+(* the same for EVERY string (unbalanced braces, stray '}', trailing backslash, any characters): merging the pieces
+   with " and " and splitting again returns the same pieces *)
+Theorem C12_idempotent_all : forall s, idempotent_on s.
+Proof. exact split_idempotent_all. Qed.
+Print Assumptions C12_idempotent_all.
+
 (* ---- non-vacuity / instances *)
 Example C12_example_split :
   split_names (lit " Donald E. Knuth  and   Leslie {Lamport and Co} AND \'Etienne~and~B and  ")
@@ -57,3 +64,13 @@ Proof. split; [vm_compute; reflexivity|]. vm_compute. repeat constructor. Qed.
 Example C12_example_idempotent :
   idempotent_on (lit "X and and Y and {and} AND Z and") /\ idempotent_on (lit "A } and { B").
 Proof. split; vm_compute; reflexivity. Qed.
+
+(* unbalanced instances of C12_idempotent_all: the hypothesis of C12_idempotent fails, the pieces are non-trivial *)
+Example C12_example_idempotent_all :
+  let s1 := lit "A  and } AND  B and }C aNd D" in
+  let s2 := lit "{ and A and B" in
+  let s3 := lit "A} and {B and C\\" in
+  balanced (strip4 s1) = false /\ split_names s1 = [lit "A  and }"; lit "B and }C"; lit "D"]
+  /\ balanced (strip4 s2) = false /\ split_names s2 = [lit "{ and A and B"]
+  /\ balanced (strip4 s3) = false /\ split_names s3 = [lit "A}"; lit "{B and C\\"].
+Proof. repeat split; vm_compute; reflexivity. Qed.
